@@ -306,20 +306,27 @@ def stream(rng, shape, n):
 SHAPES = ["sorted", "reversed", "random", "dups", "clustered", "huge", "doubles", "gauss"]
 
 
-def stream_case(rng, cid, tier, big=False):
+EXTREME_KS = [10, 10, 11, 29, 30, 31, 32767, 32768, 40000, 65535]
+
+
+def stream_case(rng, cid, tier, big=False, kchoices=None):
     """C10 + C15 on in-process digests: streams of every shape through update / merge / freeze / roundtrip"""
     b = Builder(rng)
     nslots = rng.choice([1, 1, 2, 3]) if not big else rng.choice([1, 2])
     k = rng.choice([10, 10, 11, 20, 29, 30, 50, 100, 200, 500, rng.randint(10, 500)])
+    if rng.random() < 0.04:
+        k = rng.choice([32768, 40000, 65535])          # 2 * k does not fit u16 (fixed defect tdigest-C17-two-k-u16-overflow)
+    if kchoices:
+        k = rng.choice(kchoices)
     if big:
         k = rng.choice([10, 12, 20, 30, 50])
     shapes = []
     for s in range(nslots):
-        b.new(s, k if rng.random() < 0.7 else rng.choice([10, 25, 100]))
+        b.new(s, k if (rng.random() < 0.7 or kchoices) else rng.choice([10, 25, 100]))
     for s in range(nslots):
         shape = rng.choice(SHAPES); shapes.append(shape)
         if big:
-            n = rng.choice([3000, 8000, 20000]) if tier == "quick" else rng.choice([20000, 100000, 300000])
+            n = rng.choice([3000, 8000, 20000]) if tier == "quick" else rng.choice([20000, 60000, 150000])
         else:
             n = rng.choice([0, 1, 2, 3, 5, 17, 100, 400, 1500]) if tier == "quick" else rng.choice([0, 1, 2, 3, 50, 1000, 5000, 20000])
         vals = stream(rng, shape, n)
@@ -362,7 +369,7 @@ def stream_case(rng, cid, tier, big=False):
         b.dump(s)
         if rng.random() < 0.3:
             b.roundtrip(s); b.dump(s); b.query(4, s, 0, [0.0, 0.25, 0.5, 1.0])
-    return Case(cid, [], b.ops, tag="td-stream-" + "-".join(shapes) + ("-big" if big else ""))
+    return Case(cid, [], b.ops, tag=("td-extreme-k%d-" % k if kchoices else "td-stream-") + "-".join(shapes) + ("-big" if big else ""))
 
 
 def edge_case(rng, cid):
@@ -469,7 +476,7 @@ def random_abstract(rng, flt=False, maxn=40, maxw=2 ** 20, with_buffer=True):
         mn = means[0]
     if ws[-1] == 1:
         mx = means[-1]
-    nb = rng.choice([0, 0, 0, 1, 2, 5, 17]) if with_buffer else 0
+    nb = rng.choice([0, 0, 1, 2, 5, 17]) if with_buffer else 0
     # buffered values of a real digest: the centroids end in unit centroids sitting on the old extremes;
     # a buffered value lies between them or is a new extreme (anything else compresses into the
     # inconsistent class of known finding D17)
@@ -562,6 +569,43 @@ def twin_do(b, src, dst, fn):
         b.ops.append((c, a)); b.ops.append((c, [dst] + list(a[1:])))
     import copy
     b.sims[dst] = copy.deepcopy(b.sims[src])
+
+
+def single_value_case(rng, cid):
+    """C11: a digest holding exactly ONE value, forked / round-tripped and then used: the flags byte
+    (SINGLE_VALUE, REVERSE_MERGE) and every later compression must agree with the original"""
+    import copy
+    b = Builder(rng)
+    k = rng.choice([10, 10, 12, 20, 100])
+    b.new(0, k); b.new(2, k)
+    x = dyadic(rng, 10, -3, 6)
+    b.update(0, x)
+    if rng.random() < 0.7:
+        b.dump(0)                                 # compress: reverse_merge flips
+    for y in stream(rng, "random", rng.choice([0, 3, 40])):
+        b.update(2, y)
+    b.ops.append((20, [0]))
+    b.sims[0].nb = 0
+    b.scalars(0)
+    if rng.random() < 0.5:
+        b.roundtrip(0); b.ops.append((20, [0])); b.scalars(0)
+    b.peek_if_dirty(0)
+    b.ops.append((19, [0, 1])); b.sims[1] = copy.deepcopy(b.sims[0])
+    twin_do(b, 0, 1, lambda s_: (b.ops.append((20, [s_])), b.scalars(s_)))
+    twin_do(b, 0, 1, lambda s_: b.query(4, s_, 0, [0.0, 0.5, 1.0]))
+    for rnd in range(rng.randint(1, 3)):
+        n = rng.choice([1, 2, 5, 4 * capacity(k) + 3])
+        for y in stream(rng, rng.choice(["random", "sorted", "dups"]), n):
+            twin_do(b, 0, 1, lambda s_, y=y: b.update(s_, y))
+        if rng.random() < 0.5:
+            twin_do(b, 0, 1, lambda s_: b.merge(s_, 2))
+        twin_do(b, 0, 1, lambda s_: (b.dump(s_), b.ops.append((20, [s_])), b.scalars(s_)))
+        if rng.random() < 0.4:
+            twin_do(b, 0, 1, lambda s_: b.roundtrip(s_))
+    sim = b.sims[0]
+    twin_do(b, 0, 1, lambda s_: b.query(3, s_, 1, vgrid(rng, [], sim.lo, sim.hi)))
+    twin_do(b, 0, 1, lambda s_: b.query(4, s_, 1, qgrid(rng, sim.n)))
+    return Case(cid, [], b.ops, tag="td-codec-single")
 
 
 def codec_case(rng, cid, tier, twins=True):
@@ -667,24 +711,69 @@ def mutate(rng, img):
 
 
 def weird_float_image(rng):
-    """weights / means / extremes at the edges the readers must check: NaN, infinities, zero and huge weights"""
-    specials = [float("nan"), float("inf"), float("-inf"), 0.0, -0.0, 5e-324, 1.7976931348623157e308]
+    """(code, image): one field of an otherwise valid image is a value the readers must check:
+    NaN / infinity in a mean, in min / max, among the BUFFERED values; zero and huge weights; both
+    flavours and the reference formats"""
+    nan, inf = float("nan"), float("inf")
+    specials = [nan, nan, inf, -inf, 0.0, -0.0, 5e-324, 1.7976931348623157e308]
     k = rng.choice([10, 100])
-    cs = [(1.0, 1), (2.0, rng.choice([0, 1, 2 ** 63, 2 ** 64 - 1, 2 ** 64 - 2])), (3.0, rng.choice([1, 2, 2 ** 63]))]
-    if rng.random() < 0.5:
-        i = rng.randrange(3); cs[i] = (rng.choice(specials), cs[i][1])
-    mn = rng.choice(specials + [1.0, 1.0, 1.0]); mx = rng.choice(specials + [3.0, 3.0, 3.0])
-    buffered = [rng.choice(specials + [2.0])] * rng.choice([0, 0, 1])
-    return image(k, mn, mx, cs, buffered=buffered)
+    flt = rng.random() < 0.4
+    cs = [(1.0, 1), (2.0, 3), (3.0, 1)]
+    mn, mx = 1.0, 3.0
+    buffered = [1.5, 2.5][:rng.choice([0, 1, 2, 2])]
+    target = rng.choice(["mean", "min", "max", "buffered", "buffered", "weight", "single"])
+    sp = rng.choice(specials)
+    if flt and sp in (5e-324, 1.7976931348623157e308):
+        sp = nan
+    if target == "mean":
+        i = rng.randrange(3); cs[i] = (sp, cs[i][1])
+    elif target == "min":
+        mn = sp
+    elif target == "max":
+        mx = sp
+    elif target == "buffered":
+        buffered = buffered + [2.0]; buffered[rng.randrange(len(buffered))] = sp
+    elif target == "weight":
+        big = [0, 2 ** 32 - 1] if flt else [0, 2 ** 63, 2 ** 64 - 1, 2 ** 64 - 2]
+        cs[1] = (2.0, rng.choice(big)); cs[2] = (3.0, rng.choice([1, 2] + big[1:]))
+    else:
+        b = bytes([1, 1, 20]) + struct.pack("<H", k) + bytes([2, 0, 0]) + (struct.pack("<f", sp) if flt else struct.pack("<d", sp))
+        return (21 if flt else 15), list(b)
+    r = rng.random()
+    if r < 0.25 and target in ("mean", "min", "max", "weight"):
+        # reference formats: weights are floats (NaN -> 0 -> Err, inf -> u64::MAX)
+        w = [float(x) for _, x in cs]
+        if target == "weight":
+            w[1] = rng.choice([nan, inf, -1.0, 0.0, 0.5, 1e30])
+        cs2 = [(m, 1) for m, _ in cs]
+        img = enc_ref(k, mn, mx, cs2, flt=flt)
+        # patch the weights in place
+        bs = bytearray(img)
+        if flt:
+            for i, x in enumerate(w):
+                bs[30 + 8 * i:34 + 8 * i] = struct.pack(">f", x)
+        else:
+            for i, x in enumerate(w):
+                bs[32 + 16 * i:40 + 16 * i] = struct.pack(">d", x)
+        return rng.choice([15, 21]), list(bs)
+    fv = (lambda x: struct.pack("<f", x)) if flt else (lambda x: struct.pack("<d", x))
+    fw = (lambda x: struct.pack("<I", x)) if flt else (lambda x: struct.pack("<Q", x))
+    b = bytes([2, 1, 20]) + struct.pack("<H", k) + bytes([rng.choice([0, 4]), 0, 0])
+    b += struct.pack("<II", len(cs), len(buffered)) + fv(mn) + fv(mx)
+    for m, w in cs:
+        b += fv(m) + fw(w)
+    for v in buffered:
+        b += fv(v)
+    return (21 if flt else 15), list(b)
 
 
 def malformed_case(rng, cid):
     """C14: mutated images; every outcome must be Ok or Err, and every Ok value must be usable"""
     b = Builder(rng)
     r = rng.random()
-    if r < 0.12:
-        img = weird_float_image(rng); code = 15
-    elif r < 0.2:
+    if r < 0.25:
+        code, img = weird_float_image(rng)
+    elif r < 0.32:
         img = mutate(rng, load_ref(rng.choice(REF_FILES))); code = rng.choice([15, 21])
     else:
         code, img, *_ = variant_image(rng)
@@ -731,6 +820,30 @@ def size_case(rng, cid, tier):
     return Case(cid, [], b.ops, tag="td-size-" + shape)
 
 
+def valid_edge_case(rng, cid):
+    """C17: documented-precondition calls at the edges: empty / single digests, empty split lists, q = 0 and 1,
+    NaN / infinite updates (ignored), merges with empty digests, freeze / round trip of empty and single digests"""
+    b = Builder(rng)
+    k = rng.choice(EXTREME_KS)
+    b.new(0, k); b.new(1, rng.choice(EXTREME_KS))
+    for m in (0, 1):
+        b.query(3, 0, m, [0.0, -1.0]); b.query(4, 0, m, [0.0, 0.5, 1.0]); b.query(5, 0, m, []); b.query(6, 0, m, []); b.query(5, 0, m, [1.0, 2.0])
+    b.update(0, NAN); b.update(0, INF); b.update(0, NINF); b.scalars(0)
+    b.merge(0, 1); b.merge(1, 0); b.roundtrip(0); b.freeze(0); b.dump(0); b.scalars(0)
+    vals = stream(rng, rng.choice(SHAPES), rng.choice([1, 1, 2, 3, 4, 5]))
+    for x in vals:
+        b.update(0, x)
+        if rng.random() < 0.5:
+            for m in (0, 1):
+                b.query(3, 0, m, sorted(vals)); b.query(4, 0, m, [0.0, 0.5, 1.0]); b.query(5, 0, m, []); b.query(6, 0, m, [])
+            b.scalars(0)
+    b.merge(1, 0); b.merge(0, 1); b.merge(0, 0); b.dump(0); b.roundtrip(0); b.freeze(0); b.scalars(0)
+    sim = b.sims[0]
+    if sim.n:
+        b.query(4, 0, 0, qgrid(rng, sim.n)); b.rq(0, [0.0, 1.0, 0.5])
+    return Case(cid, [], b.ops, tag="td-extreme-edge")
+
+
 _FOCUS = [None]
 
 
@@ -738,11 +851,13 @@ def gen(rng, tier, n=None, focus=None):
     _FOCUS[0] = focus
     n = n or (140 if tier == "quick" else 1500)
     out = []
+    if focus == "extremes":
+        return [valid_edge_case(rng, i) if rng.random() < 0.4 else stream_case(rng, i, tier, kchoices=EXTREME_KS) for i in range(n)]
     if focus in ("codec", "layout", "foreign", "malformed", "size"):
         for i in range(n):
             r = rng.random()
             if focus == "codec":
-                out.append(codec_case(rng, i, tier))
+                out.append(single_value_case(rng, i) if r < 0.25 else codec_case(rng, i, tier))
             elif focus == "layout":
                 out.append(codec_case(rng, i, tier, twins=False) if r < 0.75 else foreign_case(rng, i))
             elif focus == "foreign":
